@@ -37,10 +37,14 @@ invariant('PartBatcher', 'part_lists_are_not_the_devices_own_lists',
           'implies(self._part is not None and typed(self._part, "Batch"), not_own_list(self, bparts(self._part))) and '
           'implies(self._in_progress_batch is not None, not_own_list(self, self._in_progress_batch.parts))')
 
+# the two part lists written (no list when the input is a single part / nothing is under construction)
+IN_LIST = 'ite(self._part is not None and typed(self._part, "Batch"), bparts(self._part), None)[]'
+WIP_LIST = 'ite(self._in_progress_batch is None, None, self._in_progress_batch.parts)[]'
+
 B_INVS = {n: t for n, t, s in SPECS.invariants['PartBatcher']}
 
 # --------------------------------------------------------------------------- unpack one leaf from the front of the input
-contract('PartBatcher._get_part_from_input', props=['C17'], args={}, result='ref:Part',
+contract('PartBatcher._get_part_from_input', props=['C17'], args={}, result='ref:Part', modular=True,
          requires={'has_nonempty_input':
                        'self._part is not None and implies(typed(self._part, "Batch"), len(bparts(self._part)) >= 1)'},
          ensures={
@@ -60,18 +64,16 @@ contract('PartBatcher._get_part_from_input', props=['C17'], args={}, result='ref
              'output_side_untouched':
                  'self._output is old(self._output) and self._in_progress_batch is old(self._in_progress_batch)',
          },
-         modifies=['self._part', 'bparts(self._part)[]'])
+         modifies=['self._part', IN_LIST])
 
 # --------------------------------------------------------------------------- put one leaf into the output side
 # oldlen = number of parts collected before the call
 OLDLEN = 'old(ite(self._in_progress_batch is None, 0, len(self._in_progress_batch.parts)))'
 RECV = 'ite(self._in_progress_batch is None, cast(self._output, "ref:Batch"), self._in_progress_batch)'   # batch that got the part
-contract('PartBatcher._add_part_to_output', props=['C17'], args={'part': 'ref:Part'},
+contract('PartBatcher._add_part_to_output', props=['C17'], args={'part': 'ref:Part'}, modular=True,
          requires={'initialised': 'self._env is not None and alive(self._env)',
                    'output_slot_free': 'self._output is None',
-                   'leaf_exists': 'part is not None and alive(part) and part is not self._in_progress_batch and '
-                                  'implies(typed(part, "Batch") and self._in_progress_batch is not None, '
-                                  '        bparts(part) is not self._in_progress_batch.parts)'},
+                   'leaf_exists': 'part is not None and alive(part)'},
          ensures={
              'single_mode_outputs_the_part_itself':
                  'implies(isnone(self._output_batch_size), self._output is part and self._in_progress_batch is None)',
@@ -91,7 +93,7 @@ contract('PartBatcher._add_part_to_output', props=['C17'], args={'part': 'ref:Pa
                  f'  implies(self._output is not None, len(bparts(self._output)) == self._output_batch_size))',
              'input_side_untouched': 'self._part is old(self._part)',
          },
-         modifies=['self._output', 'self._in_progress_batch', 'self._in_progress_batch.parts[]', '*.Asset._id_counter', '$trace'])
+         modifies=['self._output', 'self._in_progress_batch', WIP_LIST, '*.Asset._id_counter', '$trace'])
 
 # --------------------------------------------------------------------------- Batch
 PARTS_WF = ('self.parts is not None and alive(self.parts) and self.parts is not self._value_history and '
@@ -149,8 +151,8 @@ def _moved(at):
             f'  ite(g_k == 1, self._output is {in_at("0")}, self._output is None))',
         'batch_mode_collects_the_moved_prefix_behind_what_was_collected':
             f'implies(not isnone(self._output_batch_size) and g_k >= 1, '
-            f'  {RECV} is not None and alive({RECV}) and exact_type({RECV}, "Batch") and '
-            f'  ite({at}(self._in_progress_batch is None), not {at}(alive({RECV})), {RECV} is {at}(self._in_progress_batch)) and '
+            f'  {RECV} is not None and typed({RECV}, "Batch") and {RECV} is not {at}(self._part) and '
+            f'  implies({at}(self._in_progress_batch is not None), {RECV} is {at}(self._in_progress_batch)) and '
             f'  len({RECV}.parts) == {m0} + g_k and '
             f'  all({RECV}.parts[j] is {at}(self._in_progress_batch.parts[j]) for j in range({m0})) and '
             f'  all({RECV}.parts[{m0} + i] is {in_at("i")} for i in range(g_k)))',
@@ -166,9 +168,6 @@ def _moved(at):
     }
 
 
-# the two part lists written (no list when the input is a single part / nothing is under construction)
-IN_LIST = 'ite(self._part is not None and typed(self._part, "Batch"), bparts(self._part), None)[]'
-WIP_LIST = 'ite(self._in_progress_batch is None, None, self._in_progress_batch.parts)[]'
 ACTIVE = 'old(operational(self) and self._part is not None and self._output is None)'
 EMPTY_IN = 'old(typed(self._part, "Batch") and len(bparts(self._part)) == 0)'
 contract('PartBatcher._try_move_part_to_output', props=['C17'], args={},
@@ -195,12 +194,11 @@ contract('PartBatcher._try_move_part_to_output', props=['C17'], args={},
              '  trace_kind(old(trace_len())) == fn_id("schedule_event") and trace_recv(old(trace_len())) is self._env and '
              '  trace_real(old(trace_len()), 0) == self._env._now and trace_real(old(trace_len()), 1) == self._id and '
              '  trace_fn(old(trace_len())) == method(self, "_pass_part_downstream") and trace_real(old(trace_len()), 2) == 7)'),
-         modifies=['self._part', 'self._output', 'self._in_progress_batch', 'bparts(self._part)[]',
-                   'self._in_progress_batch.parts[]', 'self._waiting_for_downstream_space', '*.Asset._id_counter', '$trace'])
+         modifies=['self._part', 'self._output', 'self._in_progress_batch', IN_LIST, WIP_LIST,
+                   'self._waiting_for_downstream_space', '*.Asset._id_counter', '$trace'])
 loop('PartBatcher._try_move_part_to_output', 1, 'while self._output == None and self._part != None',
      dict(_moved('at_loop_entry'), **B_INVS,
           entered_with_input='at_loop_entry(self._part is not None and self._output is None and '
                              '              implies(typed(self._part, "Batch"), len(bparts(self._part)) >= 1))',
           no_external_calls='trace_len() == at_loop_entry(trace_len())'),
-     modifies=['self._part', 'self._output', 'self._in_progress_batch', 'bparts(self._part)[]',
-               'self._in_progress_batch.parts[]', '$trace'])
+     modifies=['self._part', 'self._output', 'self._in_progress_batch', IN_LIST, WIP_LIST, '*.Asset._id_counter', '$trace'])
